@@ -66,7 +66,7 @@ pub fn c01() -> EngineProp {
     EngineProp {
         id: "C01",
         oracles: Oracles { converge: true, ..Default::default() },
-        profiles: vec![(Profile::General, 15000, 300_000), (Profile::Lossy, 20000, 500_000), (Profile::Structural, 12000, 250_000), (Profile::Vis, 10000, 200_000), (Profile::Periodic, 5000, 100_000), (Profile::Related, 6000, 100_000), (Profile::Split, 30000, 600_000), (Profile::Tight, 30000, 600_000)],
+        profiles: vec![(Profile::General, 15000, 300_000), (Profile::Lossy, 20000, 500_000), (Profile::Structural, 12000, 250_000), (Profile::Vis, 10000, 200_000), (Profile::Periodic, 5000, 100_000), (Profile::Related, 6000, 100_000), (Profile::Split, 30000, 600_000), (Profile::Tight, 30000, 600_000), (Profile::Wrap, 12000, 300_000)],
         nontrivial: |s| {
             has(s, "frame_without_tick_between_ops")
                 || has(s, "mut_overtook_upd")
@@ -87,7 +87,7 @@ pub fn c02() -> EngineProp {
     EngineProp {
         id: "C02",
         oracles: Oracles { values: true, ..Default::default() },
-        profiles: vec![(Profile::Lossy, 25000, 600_000), (Profile::General, 12000, 300_000), (Profile::Structural, 8000, 200_000), (Profile::Related, 5000, 100_000), (Profile::Split, 40000, 800_000), (Profile::Tight, 10000, 200_000), (Profile::Sessions, 30000, 600_000)],
+        profiles: vec![(Profile::Lossy, 25000, 600_000), (Profile::General, 12000, 300_000), (Profile::Structural, 8000, 200_000), (Profile::Related, 5000, 100_000), (Profile::Split, 40000, 800_000), (Profile::Tight, 10000, 200_000), (Profile::Sessions, 30000, 600_000), (Profile::Wrap, 12000, 300_000)],
         nontrivial: |s| has(s, "mut_overtook_upd") || has(s, "mut_reordered") || has(s, "mut_dropped"),
         rule: "cases as C01; after EVERY client frame each mapped entity's continuously replicated components are compared with the recorded server snapshot \
                at the entity's ConfirmHistory::last_tick (all components against the same tick), once-components against the set of server values up to that tick, \
@@ -100,7 +100,7 @@ pub fn c03() -> EngineProp {
     EngineProp {
         id: "C03",
         oracles: Oracles { structure: true, ..Default::default() },
-        profiles: vec![(Profile::Structural, 30000, 600_000), (Profile::General, 12000, 300_000), (Profile::Vis, 40000, 600_000), (Profile::Related, 4000, 100_000), (Profile::Tight, 50000, 900_000)],
+        profiles: vec![(Profile::Structural, 30000, 600_000), (Profile::General, 12000, 300_000), (Profile::Vis, 40000, 600_000), (Profile::Related, 4000, 100_000), (Profile::Tight, 50000, 900_000), (Profile::Wrap, 10000, 300_000)],
         nontrivial: |s| has(s, "frame_without_tick_between_ops") || has(s, "multi_upd_one_client_frame") || has(s, "vis_change"),
         rule: "cases as C01 with a structure-heavy profile; after EVERY client frame: ServerUpdateTick never decreases and is 0 or a tick at which an update message \
                was sent to this client; key set of the entity map, its inverse, Replicated markers and per-entity component sets equal the recorded structure the \
